@@ -467,3 +467,24 @@ def build_bastion_fuzz_test():
     if rc != 0:
         raise Inconclusive("bastion fuzz test binary does not build:\n" + o[-4000:])
     return out
+
+
+def build_prod_binary(race=False):
+    """/repo/cmd/omniwitness exactly as it ships (flags, sql.Open + SetMaxOpenConns, metric factory, omniwitness.Main), plus ONE add-only overlay
+    file in package main that points the exported omniwitness.ConfigLogs at the file named by VERIF_LOGS_YAML."""
+    key = "prod-race" if race else "prod"
+    if key in _built:
+        return _built[key]
+    os.makedirs(os.path.join(HARNESS, "bin"), exist_ok=True)
+    out = os.path.join(HARNESS, "bin", "omniwitness-race" if race else "omniwitness")
+    ov = os.path.join(HARNESS, "bin", "overlay-prod.json")
+    json.dump({"Replace": {os.path.join(REPO, "cmd/omniwitness/zz_verif_config.go"): os.path.join(HARNESS, "shims", "monolith_config.go")}}, open(ov, "w"))
+    cmd = ["go", "build", "-tags", "verif", "-overlay", ov, "-o", out]
+    if race:
+        cmd.append("-race")
+    cmd.append("./cmd/omniwitness")
+    rc, o, dt = sh(cmd, cwd=REPO, env=GOENV, timeout=1800)
+    if rc != 0:
+        raise Inconclusive("cmd/omniwitness does not build:\n" + o[-4000:])
+    _built[key] = out
+    return out
